@@ -328,7 +328,7 @@ impl Parameters {
         match self.requirements {
             Requirements::Client {
                 initial_scid,
-                retry_scid: _,
+                retry_scid,
                 origin_dcid,
             } => {
                 let Some(initial_scid) = initial_scid else {
@@ -344,10 +344,15 @@ impl Parameters {
                         "Initial Source Connection ID from server mismatch",
                     ));
                 }
-                // 并不正确，要和intiial_scid一样地去验证
-                // if self.server.retry_source_connection_id() != retry_scid {
-                //     return Err(param_error("Retry Source Connection ID mismatch"));
-                // }
+                // Present iff a Retry packet was received, and then equal to its source connection id
+                // (RFC 9000 section 7.3).
+                if self
+                    .server
+                    .get::<ConnectionId>(ParameterId::RetrySourceConnectionId)
+                    != retry_scid
+                {
+                    return Err(param_error("Retry Source Connection ID mismatch"));
+                }
                 if self
                     .server
                     .get::<ConnectionId>(ParameterId::OriginalDestinationConnectionId)
